@@ -37,7 +37,7 @@ func (c10) Meta() fw.Meta {
 			"values are chosen so that floating-point addition is exact: the property is about WHICH values are added, not about association order",
 			"directory names contain no dots (items are dotted paths)",
 		},
-		Obligations: []string{"function_sums", "cli_sums", "slots_summed", "slot_all_nan", "slot_single_contributor", "first_file_hole", "single_file_item", "layout_mismatch_rejected", "no_match_item", "no_match_file", "unclean_base_spelling", "single_archive_selection", "edge_window", "file_pattern_with_directory", "remote_sums", "slow_first_item_runs", "remote_sums_with_concurrent_clients", "server_socket_writes_delayed", "concurrent_noise_requests_served", "remote_sums_of_long_archives", "sums_after_failed_reads", "symlinked_source_files", "concurrent_remote_sums_differing_in_clock"},
+		Obligations: []string{"function_sums", "cli_sums", "slots_summed", "slot_all_nan", "slot_single_contributor", "first_file_hole", "single_file_item", "layout_mismatch_rejected", "no_match_item", "no_match_file", "unclean_base_spelling", "single_archive_selection", "edge_window", "file_pattern_with_directory", "remote_sums", "slow_first_item_runs", "remote_sums_with_concurrent_clients", "server_socket_writes_delayed", "concurrent_noise_requests_served", "remote_sums_of_long_archives", "sums_after_failed_reads", "symlinked_source_files", "concurrent_remote_sums_differing_in_clock", "order_sensitive_sums_with_first_file_read_last"},
 		Workers:     12,
 	}
 }
@@ -63,10 +63,16 @@ func buildSumTree(r *rand.Rand, base string, l model.Layout, now int64, c *fw.Ct
 	if r.Intn(2) == 0 {
 		dirs = append(dirs, "grpC")
 	}
+	// "grpF": three files whose values do not add associatively (1, 1e17, -1e17 in name order: (1+1e17)-1e17 = 0 but
+	// (1e17-1e17)+1 = 1): the sum is the fold in file-name order, whichever file happens to be read first
+	dirs = append(dirs, "grpF")
 	for di, d := range dirs {
 		n := 1 + r.Intn(12)
 		if di == 0 {
 			n = 3 + r.Intn(6)
+		}
+		if d == "grpF" {
+			n = 3
 		}
 		if di == 1 && r.Intn(2) == 0 {
 			n = 1
@@ -100,6 +106,17 @@ func buildSumTree(r *rand.Rand, base string, l model.Layout, now int64, c *fw.Ct
 				}
 			}
 		}
+		if d == "grpF" {
+			for i := range conts {
+				for ai, a := range l.Archs {
+					conts[i][ai] = map[int64]float64{}
+					lo := model.AlignNext(now-a.Ret(), a.Step)
+					for ts := lo; ts <= now; ts += int64(a.Step) {
+						conts[i][ai][ts] = []float64{1, 1e17, -1e17}[i]
+					}
+				}
+			}
+		}
 		var names []string
 		for i := 0; i < n; i++ {
 			name := fmt.Sprintf("h%02d.wsp", i)
@@ -123,6 +140,19 @@ func buildSumTree(r *rand.Rand, base string, l model.Layout, now int64, c *fw.Ct
 		}
 		sort.Strings(names)
 		t.Items[d] = names
+	}
+	// one item directory is a symbolic link to a directory stored elsewhere
+	if r.Intn(2) == 0 {
+		real := filepath.Join(base+"-real", "grpB-dir")
+		mustMkdir(filepath.Dir(real))
+		if err := os.Rename(filepath.Join(base, "grpB"), real); err == nil {
+			if err := os.Symlink(real, filepath.Join(base, "grpB")); err != nil {
+				panic(err)
+			}
+			if c != nil {
+				c.Count("symlinked_item_directories", 1)
+			}
+		}
 	}
 	return t
 }
@@ -292,6 +322,27 @@ func (c10) Run(c *fw.Ctx) {
 		}
 		if len(vt.Items[d]) == 1 {
 			c.Count("single_file_item", 1)
+		}
+	}
+	// the order-sensitive item summed while its FIRST file is locked for a moment (it is read last): the sum is still the
+	// fold in file-name order
+	if !c.Violated() {
+		want, _ := expectedSum(vt, "grpF", -1, 0, vnow, vnow, c)
+		if hold, err := wt.Open(filepath.Join(vt.Base, "grpF", vt.Items["grpF"][0])); err == nil {
+			go func() { time.Sleep(120 * time.Millisecond); hold.Close() }()
+			_, got, err := wcmd.VerifSumWhisperFile(vt.Base, "grpF", "*.wsp", -1, 0, u32(vnow), u32(vnow))
+			c.Count("order_sensitive_sums_with_first_file_read_last", 1)
+			if err != nil {
+				c.Violationf("sum-error", fw.J{"item": "grpF", "err": err.Error()}, "sum failed: %v", err)
+				return
+			}
+			for ai := range l.Archs {
+				if msg := seriesEqual(got[ai], want[ai]); msg != "" {
+					c.Violationf("sum-differs", fw.J{"item": "grpF", "archive": ai, "values": "1, 1e17, -1e17 in file-name order", "first_file": "locked for 120 ms"},
+						"sum of values that do not add associatively, first file read last, archive %d: %s", ai, msg)
+					return
+				}
+			}
 		}
 	}
 	// the same sums through a real server, with item and file names that need escaping in the query
